@@ -274,6 +274,7 @@ PROPS = {
         "units": [
             {"name": "c18.histories", "pkg": ROUTING, "test": "TestVerifC18Histories", "shards_t": 16, "shards_q": 6, "crash_is_violation": True},
             {"name": "c18.directed", "pkg": ROUTING, "test": "TestVerifC18Directed", "shards_t": 4, "shards_q": 4, "crash_is_violation": True},
+            {"name": "c18.real-tcpcl", "pkg": ROUTING, "test": "TestVerifC18RealTCPCL", "shards_t": 8, "shards_q": 4, "crash_is_violation": True},
         ],
     },
     "C19": {
